@@ -20,7 +20,11 @@ import (
 func ToMultiAlign(samText string, wrap, start, end int, pad bool, threads int) (string, error) {
 	var out bytes.Buffer
 	err := sam.ToMultiAlign(strings.NewReader(samText), &out, wrap, start, end, pad, threads)
-	return out.String(), err
+	if err != nil {
+		// the call returned early; goroutines it started may still write to out
+		return "", err
+	}
+	return out.String(), nil
 }
 
 // ToPairAlignDir runs sam.ToPairAlign in directory mode and returns file name -> content.
@@ -49,7 +53,11 @@ func SamVariants(samText string, refFasta string, refFromFile bool, anno, suffix
 	} else {
 		err = sam.Variants(strings.NewReader(samText), nil, false, strings.NewReader(anno), suffix, &out, start, end, aggregate, threshold, appendSNP, threads)
 	}
-	return out.String(), err
+	if err != nil {
+		// the call returned early; goroutines it started may still write to out
+		return "", err
+	}
+	return out.String(), nil
 }
 
 // Variants runs variants.Variants on an in-memory MSA (file semantics: the
@@ -57,13 +65,21 @@ func SamVariants(samText string, refFasta string, refFromFile bool, anno, suffix
 func Variants(msa string, refID string, anno, suffix string, start, end int, aggregate bool, threshold float64, appendSNP bool, threads int) (string, error) {
 	var out bytes.Buffer
 	err := variants.Variants(bytes.NewReader([]byte(msa)), false, refID, strings.NewReader(anno), suffix, &out, start, end, aggregate, threshold, appendSNP, threads)
-	return out.String(), err
+	if err != nil {
+		// the call returned early; goroutines it started may still write to out
+		return "", err
+	}
+	return out.String(), nil
 }
 
 func SNPs(ref, aln string, hardGaps, aggregate bool, threshold float64) (string, error) {
 	var out bytes.Buffer
 	err := snps.SNPs(strings.NewReader(ref), strings.NewReader(aln), hardGaps, aggregate, threshold, &out)
-	return out.String(), err
+	if err != nil {
+		// the call returned early; goroutines it started may still write to out
+		return "", err
+	}
+	return out.String(), nil
 }
 
 func Closest(query, target, measure string, threads int) (string, error) {
@@ -71,7 +87,11 @@ func Closest(query, target, measure string, threads int) (string, error) {
 	before := runtime.GOMAXPROCS(0)
 	err := closest.Closest(strings.NewReader(query), strings.NewReader(target), measure, &out, threads)
 	runtime.GOMAXPROCS(before)
-	return out.String(), err
+	if err != nil {
+		// the call returned early; goroutines it started may still write to out
+		return "", err
+	}
+	return out.String(), nil
 }
 
 func ClosestN(n int, maxdist float64, query, target, measure string, table bool, threads int) (string, error) {
@@ -79,13 +99,21 @@ func ClosestN(n int, maxdist float64, query, target, measure string, table bool,
 	before := runtime.GOMAXPROCS(0)
 	err := closest.ClosestN(n, maxdist, strings.NewReader(query), strings.NewReader(target), measure, &out, table, threads)
 	runtime.GOMAXPROCS(before)
-	return out.String(), err
+	if err != nil {
+		// the call returned early; goroutines it started may still write to out
+		return "", err
+	}
+	return out.String(), nil
 }
 
 func UpdownList(ref, aln string) (string, error) {
 	var out bytes.Buffer
 	err := updown.List(strings.NewReader(ref), strings.NewReader(aln), &out)
-	return out.String(), err
+	if err != nil {
+		// the call returned early; goroutines it started may still write to out
+		return "", err
+	}
+	return out.String(), nil
 }
 
 // TopRankingOpts mirrors the command-line options of updown topranking.
@@ -109,7 +137,11 @@ func TopRanking(query, target, ref string, qtype, ttype string, o TopRankingOpts
 	err := updown.TopRanking(strings.NewReader(query), strings.NewReader(target), strings.NewReader(ref), &out, o.Table,
 		qtype, ttype, ign, o.SizeTotal, o.SizeUp, o.SizeDown, o.SizeSide, o.SizeSame,
 		o.DistAll, o.DistUp, o.DistDown, o.DistSide, o.ThreshPair, o.ThreshTarget, o.NoFill, o.DistPush)
-	return out.String(), err
+	if err != nil {
+		// the call returned early; goroutines it started may still write to out
+		return "", err
+	}
+	return out.String(), nil
 }
 
 // SortedKeys is a small helper for deterministic iteration.
